@@ -252,7 +252,7 @@ void decompressDataSeries_double_1D(double** data, size_t dataSeriesLength, doub
 	}
 	
 #ifdef HAVE_TIMECMPR	
-	if(confparams_dec->szMode == SZ_TEMPORAL_COMPRESSION)
+	if(confparams_dec->szMode == SZ_TEMPORAL_COMPRESSION && hist_data != NULL) //the point-wise relative decoders call this without a history
 		memcpy(hist_data, (*data), dataSeriesLength*sizeof(double));
 #endif	
 	
@@ -568,7 +568,7 @@ void decompressDataSeries_double_2D(double** data, size_t r1, size_t r2, double*
 	}
 
 #ifdef HAVE_TIMECMPR	
-	if(confparams_dec->szMode == SZ_TEMPORAL_COMPRESSION)
+	if(confparams_dec->szMode == SZ_TEMPORAL_COMPRESSION && hist_data != NULL) //the point-wise relative decoders call this without a history
 		memcpy(hist_data, (*data), dataSeriesLength*sizeof(double));
 #endif	
 
@@ -1113,7 +1113,7 @@ void decompressDataSeries_double_3D(double** data, size_t r1, size_t r2, size_t 
 	}
 
 #ifdef HAVE_TIMECMPR	
-	if(confparams_dec->szMode == SZ_TEMPORAL_COMPRESSION)
+	if(confparams_dec->szMode == SZ_TEMPORAL_COMPRESSION && hist_data != NULL) //the point-wise relative decoders call this without a history
 		memcpy(hist_data, (*data), dataSeriesLength*sizeof(double));
 #endif	
 
@@ -1782,10 +1782,8 @@ void decompressDataSeries_double_1D_MSST19(double** data, size_t dataSeriesLengt
 		}
 	}
 	
-#ifdef HAVE_TIMECMPR	
-	if(confparams_dec->szMode == SZ_TEMPORAL_COMPRESSION)
-		memcpy(multisteps->hist_data, (*data), dataSeriesLength*sizeof(double));
-#endif	
+	//no history refresh: a point-wise relative step is never the reference of a temporal prediction, and this decoder is not given
+	//the variable's history (the global 'multisteps' belongs to the compressor and is unset or stale in a reader)
 	free(precisionTable);
 	free(leadNum);
 	free(type);
@@ -2105,10 +2103,8 @@ void decompressDataSeries_double_2D_MSST19(double** data, size_t r1, size_t r2, 
 		}
 	}
 
-#ifdef HAVE_TIMECMPR	
-	if(confparams_dec->szMode == SZ_TEMPORAL_COMPRESSION)
-		memcpy(multisteps->hist_data, (*data), dataSeriesLength*sizeof(double));
-#endif	
+	//no history refresh: a point-wise relative step is never the reference of a temporal prediction, and this decoder is not given
+	//the variable's history (the global 'multisteps' belongs to the compressor and is unset or stale in a reader)
 
 	free(precisionTable);
 	free(leadNum);
@@ -2662,10 +2658,8 @@ void decompressDataSeries_double_3D_MSST19(double** data, size_t r1, size_t r2, 
 		}
 	}
 	
-#ifdef HAVE_TIMECMPR	
-	if(confparams_dec->szMode == SZ_TEMPORAL_COMPRESSION)
-		memcpy(multisteps->hist_data, (*data), dataSeriesLength*sizeof(double));
-#endif		
+	//no history refresh: a point-wise relative step is never the reference of a temporal prediction, and this decoder is not given
+	//the variable's history (the global 'multisteps' belongs to the compressor and is unset or stale in a reader)
 
 	free(precisionTable);
 	free(leadNum);
